@@ -799,7 +799,7 @@ def component_part(ck) -> dict:
     depth_full = 3 if quick else 5            # exhaustive, all actions incl. getters
     depth_deep = 4 if quick else 6            # exhaustive, getters left out (heap no-ops), coarse labels
     enum_len = 3 if quick else 4              # every operation sequence up to this length is replayed
-    nsim, sim_depth = (300, 8) if quick else (2000, 10)   # per simulation worker (2 workers)
+    nsim, sim_depth = (300, 8) if quick else (1000, 10)   # per simulation worker (2 workers)
     runs, errs = {}, []
     import time
     phase, t0 = {}, time.time()
